@@ -232,7 +232,11 @@ class MPS(DNAS):
         :return: the precision-assignement found by the NAS
         :rtype: Dict[str, Dict[str, Any]]
         """
+        # tracing forces `eval()` on the inner model: restore its training status afterwards
+        modes = [(m, m.training) for m in self.seed.modules()]
         mod, _, _ = convert(self.seed, self._input_example, 'export')
+        for m, mode in modes:
+            m.training = mode
         return mod
 
     def summary(self) -> Dict[str, Dict[str, Any]]:
